@@ -54,8 +54,24 @@ def rnd_poly(rng):
 def gen_ray(rng):
     pts = rnd_poly(rng)
     n = len(pts)
-    kind = rng.choice(["random", "vertex", "vertex", "edge", "axis", "near_parallel", "inside", "zero", "two_vertices"])
+    kind = rng.choice(["random", "vertex", "vertex", "edge", "axis", "near_parallel", "inside", "zero", "two_vertices", "lattice"])
     o = [rng.uniform(-8, 8), rng.uniform(-8, 8)]
+    if kind == "lattice":
+        # small integer coordinates and a line through a vertex (often a free end): every product and difference in
+        # ray_intersect_with_edge is exact and the edge parameter of a vertex pass is exactly 0 or 1, so even free ends are decided
+        n = rng.choice([2, 3, 5])
+        pts, seen = [], set()
+        while len(pts) < n:
+            q = (rng.randint(-9, 9), rng.randint(-9, 9))
+            if q not in seen:
+                seen.add(q)
+                pts.append([float(q[0]), float(q[1])])
+        v = pts[rng.choice([0, n - 1, rng.randrange(n)])]
+        d = [float(rng.randint(-4, 4)), float(rng.randint(-4, 4))]
+        if d == [0.0, 0.0]:
+            d = [1.0, 2.0]
+        m = rng.choice([0, 1, -2, 3])
+        return {"k": "c06.ray", "pts": pts, "o": [v[0] - m * d[0], v[1] - m * d[1]], "d": d, "kind": kind}
     if kind == "random":
         d = [rng.uniform(-1, 1), rng.uniform(-1, 1)]
     elif kind == "vertex":
@@ -225,6 +241,11 @@ def oracle(c, r):
             t, st = edge_hit(o, d, pts[i], pts[i + 1])
             # a line exactly through a vertex shared by two edges must be reported (by either edge); at a free end of
             # the polyline the boundary value t1 = 0 or 1 is at the mercy of rounding and is not demanded
+            exact = c.get("kind") == "lattice"       # integer data: the computed edge parameter of a vertex pass is exactly 0 or 1
+            if exact and (st == "vertex0" and i == 0 or st == "vertex1" and i == len(pts) - 2) and not any(abs(t - f) <= 1e-8 + 1e-9 * abs(t) for f in ts):
+                yield ("end-vertex-missed", what + ": the line passes exactly through the %s vertex of the polyline at t=%r (integer data, the edge parameter is exactly %d), reported parameters %r" % (
+                    "first" if st == "vertex0" else "last", t, 0 if st == "vertex0" else 1, ts))
+                break
             if (st == "vertex0" and i > 0 or st == "vertex1" and i < len(pts) - 2) and not any(abs(t - f) <= 1e-8 + 1e-9 * abs(t) for f in ts):
                 yield ("vertex-pass-missed", what + ": the line passes exactly through the vertex shared by edges %d and %d at t=%r, reported parameters %r" % (
                     (i - 1, i, t, ts) if st == "vertex0" else (i, i + 1, t, ts)))
